@@ -150,3 +150,9 @@ Definition f_to_Q (x : f64) : option (Z * Z) :=
   | B754_finite _ _ s m e _ => Some ((if s then - Zpos m else Zpos m), e)
   | _ => None
   end.
+
+(* Rust f64::max / f64::min: the non-NaN operand wins *)
+Definition fmax (a b : f64) : f64 :=
+  if f_is_nan a then b else if f_is_nan b then a else if flt a b then b else a.
+Definition fmin (a b : f64) : f64 :=
+  if f_is_nan a then b else if f_is_nan b then a else if flt b a then b else a.
